@@ -655,8 +655,17 @@ func runScenario(sc *Scenario, accountGoroutines bool) (res ScenarioResult) {
 		time.Sleep(5 * time.Millisecond)
 	}
 	if l != lGood && ok {
-		fail("once the hostile connection has ended, sessions, UDP registrations and reader slots are released", "hostile-ledger-not-empty",
-			fmt.Sprintf("tables with only the well-behaved client: %+v, after the hostile peers: %+v", lGood, l))
+		l2 := l
+		l2.UDPRtp, l2.UDPRtcp = lGood.UDPRtp, lGood.UDPRtcp
+		if good.udp && l2 == lGood && l.UDPRtp <= lGood.UDPRtp && l.UDPRtcp < lGood.UDPRtcp && usesGoodPorts(sc) {
+			// the known weakness of demultiplexing by (IP, port): a peer of the same address claimed the
+			// client ports of the well-behaved client and took its registration away with it
+			fail("the server keeps serving other connections correctly", "udp-port-collision-same-ip",
+				fmt.Sprintf("a hostile peer of the same IP address set up a media on the UDP client ports of the well-behaved client; after its tear-down the server has %d RTCP registrations instead of %d: RTCP of the well-behaved client is no longer processed", l.UDPRtcp, lGood.UDPRtcp))
+		} else {
+			fail("once the hostile connection has ended, sessions, UDP registrations and reader slots are released", "hostile-ledger-not-empty",
+				fmt.Sprintf("tables with only the well-behaved client: %+v, after the hostile peers: %+v", lGood, l))
+		}
 	}
 
 	// a fresh well-behaved connection (UDP: on client ports a hostile peer used)
@@ -735,6 +744,17 @@ func truncate(s string, n int) string {
 		return s[:n] + "…"
 	}
 	return s
+}
+
+func usesGoodPorts(sc *Scenario) bool {
+	for _, p := range sc.Peers {
+		for _, c := range p.Chunks {
+			if bytes.Contains(c, []byte("{{GP}}")) {
+				return true
+			}
+		}
+	}
+	return false
 }
 
 func hasHTTPGet(chunks [][]byte) bool {
